@@ -116,7 +116,22 @@ def run_world(case, ctx):
 		N = nref if N == 'n' else nref + 5 if N == 'n+5' else N
 		qs = [np.array(s, dtype=W.dtype) for s in W.query_sigs]
 		try:
-			res = query(db, qs, report_closest=N, chunksize=case['chunksize'])
+			if case.get('reuse_params'):
+				# the caller's QueryParams object was used before, for a smaller database (first two genomes only)
+				from gambit.query import QueryParams
+				w2 = dict(case['world'])
+				w2['genomes'] = [dict(g, dup_of=None) for g in case['world']['genomes'][:2]]
+				w2['queries'] = [dict(q, ref=0) for q in case['world']['queries'][:1]]
+				W2 = Wd.get_world(ctx, w2, 'c09world')
+				params = QueryParams(report_closest=N, chunksize=case['chunksize'])
+				db2 = W2.load_db()
+				try:
+					query(db2, [np.array(W2.query_sigs[0], dtype=W2.dtype)], params)
+				finally:
+					db2.signatures.close(); db2.session.close(); db2.session.get_bind().dispose()
+				res = query(db, qs, params)
+			else:
+				res = query(db, qs, report_closest=N, chunksize=case['chunksize'])
 		except Exception as e:
 			raise Violation('exception', f'query raised {type(e).__name__}: {e}', case)
 		keys = [f['key'] for f in W.genome_fields]
@@ -144,7 +159,7 @@ def run_world(case, ctx):
 			db.signatures.close(); db.session.close(); db.session.get_bind().dispose()
 		except Exception:
 			pass
-	return {'nontrivial': tie, 'classes': ['world', f'nref={"<=16" if nref <= 16 else ">16"}', 'tie_in_prefix' if tie else 'no_tie']}
+	return {'nontrivial': tie, 'classes': ['world', f'nref={"<=16" if nref <= 16 else ">16"}', 'tie_in_prefix' if tie else 'no_tie'] + (['params_object_reused'] if case.get('reuse_params') else [])}
 
 
 def run_subproc(case, ctx):
@@ -211,7 +226,7 @@ def gen_case(draw, tier):
 	w = draw(Wd.world(max_refs=40, min_refs=1, max_queries=3, ties=True))
 	if which == 'world':
 		return {'kind': 'world', 'world': w, 'report_closest': draw(st.sampled_from([10, 1, 3, 'n', 'n+5'])),
-		        'chunksize': draw(st.sampled_from([1000, None, 1, 3, 7]))}
+		        'chunksize': draw(st.sampled_from([1000, None, 1, 3, 7])), 'reuse_params': draw(st.sampled_from([False, True, False]))}
 	return {'kind': 'subproc', 'world': w, 'cores': draw(st.sampled_from([[1, 4], [1], [4, 16], [2]]))}
 
 
